@@ -19,8 +19,34 @@ def command(name):
     return cli.commands[name]
 
 
+def _prefill(args):
+    """Every third invocation (decided by the content of the input file, so
+    that a case replays identically) finds its output path already holding a
+    longer, unrelated file: a command writes its output, it does not patch
+    what was there."""
+    import zlib
+    args = list(args)
+    key = 0
+    for flag in ("-i", "--input-fp"):
+        if flag in args[:-1]:
+            try:
+                with open(args[args.index(flag) + 1], "rb") as f:
+                    key = zlib.crc32(f.read(1 << 16))
+            except OSError:
+                pass
+    for flag in ("-o", "--output-fp"):
+        if flag in args[:-1]:
+            out = args[args.index(flag) + 1]
+            if not os.path.exists(out) and key % 3 == 0:
+                with open(out, "w", encoding="utf8") as f:
+                    f.write("stale output of an earlier run\n" * 4000)
+                return True
+    return False
+
+
 def invoke(command, name, args, sub=False):
     """Returns (exit_code, stdout_text)."""
+    _prefill(args)
     if sub:
         code = ("import sys; sys.path.insert(0, %r); "
                 "from biom.cli import cli; cli()" % REPO)
